@@ -25,8 +25,21 @@ struct BudgetState {
     bool tripped = false;
     const char *kind = "";       // "reads" | "bytes" | "heap"
     char site[256] = {0};        // innermost ezc3d function when tripped
+    // --- trips in the data section are set against the counts the file itself claims (known defect: the data reader
+    // trusts them). A first trip that those counts explain lets the load go on under the budget the claimed volume
+    // would earn ("soft"); reading or allocating beyond even that is another defect and gets another key.
+    uint64_t file_size = 0;
+    bool in_data = false;        // the parameter section has been stored in the object: what follows is the data reader
+    uint64_t reads_at_data = 0, bytes_at_data = 0;
+    bool soft = false;           // first trip explained by the claimed counts, load continued
+    const char *soft_kind = "";
+    char soft_site[256] = {0};
+    uint64_t claimed_values = 0;
 };
 
+// probes supplied by the executor for the object being loaded on this thread (nullptr: no explanation attempted)
+struct ClaimedCounts { uint64_t values = 0, objects = 0; }; // 4-byte values / container elements (frames, points, sub-frames, channels) the loaded header says the data section holds
+void budget_set_probes(int (*phase_fn)(), ClaimedCounts (*claim_fn)());
 void budget_arm(uint64_t file_size);
 BudgetState budget_disarm();
 BudgetState &budget_state();
